@@ -22,6 +22,12 @@ type pdfFrag struct {
 type pdfPage struct {
 	W, H  int
 	Frags []pdfFrag
+	// Broken makes the page unreadable for a text extractor while the page tree stays
+	// intact (the malformed stream of the extractor-level cases): "" = a regular page;
+	// "badfilter" = /Filter /FlateDecode over data that is no zlib stream; "unkfilter" = a
+	// filter name that does not exist; "contentsint" = /Contents refers to an integer;
+	// "badops" = the content stream ends inside a string literal.
+	Broken string
 }
 
 func pdfEscape(s string) string {
@@ -69,7 +75,18 @@ func writePDF(pages []pdfPage) []byte {
 				fmt.Fprintf(&cs, "BT\n/F1 %d Tf\n1 0 0 1 %d %d Tm\n(%s) Tj\nET\n", f.FontSize, f.X, f.Y, pdfEscape(f.Text))
 			}
 		}
-		obj(fmt.Sprintf("<< /Length %d >>\nstream\n%sendstream", cs.Len(), cs.String()))
+		switch p.Broken {
+		case "badfilter":
+			obj(fmt.Sprintf("<< /Length %d /Filter /FlateDecode >>\nstream\n%sendstream", cs.Len(), cs.String()))
+		case "unkfilter":
+			obj(fmt.Sprintf("<< /Length %d /Filter /NoSuchDecode >>\nstream\n%sendstream", cs.Len(), cs.String()))
+		case "contentsint":
+			obj("17")
+		case "badops":
+			obj(fmt.Sprintf("<< /Length %d >>\nstream\n%s(never closed \nendstream", cs.Len()+15, cs.String()))
+		default:
+			obj(fmt.Sprintf("<< /Length %d >>\nstream\n%sendstream", cs.Len(), cs.String()))
+		}
 	}
 	xref := buf.Len()
 	fmt.Fprintf(&buf, "xref\n0 %d\n", len(offs)+1)
